@@ -1236,6 +1236,11 @@ class Response:
         else:
             self.headers["Cache-Control"] = value
 
+        if self._cache_control_obj is not None:
+            # remember what the object itself wrote, so that a later change
+            # of the header (even back to an earlier text) is noticed
+            self._cache_control_obj.header_value = value
+
     cache_control = property(
         _cache_control__get,
         _cache_control__set,
